@@ -418,7 +418,32 @@ def lib_cases(max_L, max_L_2d, max_color, max_n):
     return out
 
 
+def heavy_user_cases(quick):
+    """User-defined codes with generators of very large weight (error-
+    detecting codes with the two generators X^n, Z^n; Shor-type gauge
+    rows): weights around the multiples of 256, where byte-sized counters
+    wrap."""
+    out = []
+    ns = [255, 256, 257, 512] if quick else [254, 255, 256, 257, 258, 511, 512, 513, 768, 1024]
+    for n in ns:
+        qubits = [[2 * i + 1, 0] for i in range(n)]
+        lx = [[[0, 'X'], [1, 'X']]]
+        lz = [[[0, 'Z'], [1, 'Z']]]
+        allx = [[i, 'X'] for i in range(n)]
+        allz = [[i, 'Z'] for i in range(n)]
+        out.append({'kind': 'user', 'dim': 2, 'qubits': qubits, 'stabs': [[0, 1], [2, 1]],
+                    'stab_ops': [allx, allz], 'logicals_x': lx, 'logicals_z': lz, 'rseed': n})
+        # X part of weight 256 inside a mixed generator, a light one next to it
+        if n > 256:
+            mixed = [[i, 'X'] for i in range(256)] + [[i, 'Z'] for i in range(256, n)]
+            out.append({'kind': 'user', 'dim': 2, 'qubits': qubits, 'stabs': [[0, 1], [2, 1], [4, 1]],
+                        'stab_ops': [mixed, [[0, 'Z'], [1, 'Z']], allz[:256]],
+                        'logicals_x': lx, 'logicals_z': lz, 'rseed': n + 1})
+    return out
+
+
 def run(ctx):
+    ctx.run_cases(heavy_user_cases(ctx.tier == 'quick'), chunk=1)
     if ctx.tier == 'quick':
         cases = lib_cases(3, 5, 3, 400)
         n_user = 3000
